@@ -1219,6 +1219,17 @@ int cs_recipe(cs_scenario *sc, int recipe, int ev, int av, int pv, int kv)
 			  -1,  l21, pm };
 	    push_std(sc, SK_DENSE, 3, ports, sp, NULL, ev, av, pv);
 	}
+	if (P == 3) {
+	    /* a non-reciprocal "isolator chain": only S23 and S31 are
+	       non-zero off the diagonal (1 -> 3 -> 2), every other
+	       off-diagonal cell explicitly zero; the three ports are still
+	       one connected group */
+	    int ports[3] = { 1, 2, 3 };
+	    int sp[9] = { l11, -1,  -1,
+			  -1,  l22, l12,
+			  l21, -1,  pm };
+	    push_std(sc, SK_DENSE, 3, ports, sp, NULL, ev, av, pv);
+	}
 	for (int p = 1; p <= P; ++p) {
 	    for (int q = p + 1; q <= P; ++q) {
 		int ports[2] = { p, q };
